@@ -417,7 +417,7 @@ def run_property(pid: str, kinds: List[str], tier: str, rule: str, assumptions: 
             calls += 1
         hists = seq_export(ck, kind, calls, items)
         jobs = [(kind, h, False) for h in hists]
-        if kind in ("composite", "serial", "single", "multiple"):
+        if kind in ("composite", "serial", "single", "multiple", "scheduled", "refcount"):   # wrapped / held resources that are falsy
             jobs += [(kind, h, True) for h in hists]
         for f in core.parallel_map(seq_judge, jobs, procs=8, chunk=500):
             if f:
